@@ -507,6 +507,7 @@ type parentState struct {
 	fatals      int
 	unconfirmed int
 	abandoned   int // shards given up after a dozen fatal exits
+	confirmed   map[string]int // fatal exits reproduced alone, by signature
 	machineErr  []string
 }
 
@@ -568,7 +569,7 @@ func runParent(c *Check, tier string, seed int64) int {
 	if c.Whole != nil {
 		wn = 1
 	}
-	st := &parentState{viol: map[string][]Violation{}}
+	st := &parentState{viol: map[string][]Violation{}, confirmed: map[string]int{}}
 	phases := c.Phases
 	if len(phases) == 0 {
 		phases = []Phase{{}}
@@ -606,7 +607,12 @@ func runParent(c *Check, tier string, seed int64) int {
 					raw := findCase(c, tier, seed, last)
 					// a fatal exit counts only if the same case dies again ALONE in a fresh process (an overloaded machine
 					// can kill an innocent case: accumulated garbage, a stalled scheduler)
-					if ok, vs := confirmAlone(c, self, tier, seed, last, ph); ok {
+					st.mu.Lock()
+					settled := st.confirmed[why] >= 3 // the same kind of death already reproduced alone three times: no need to re-confirm every further one
+					st.mu.Unlock()
+					if settled {
+						// fall through to recording
+					} else if ok, vs := confirmAlone(c, self, tier, seed, last, ph); ok {
 						fmt.Fprintf(os.Stderr, "worker %d died on case #%d (%s) but the case completes alone: not counted\n", wi, last, why)
 						st.mu.Lock()
 						st.unconfirmed++
@@ -617,6 +623,9 @@ func runParent(c *Check, tier string, seed int64) int {
 						startAfter = last
 						continue
 					}
+					st.mu.Lock()
+					st.confirmed[why]++
+					st.mu.Unlock()
 					fmt.Fprintf(os.Stderr, "worker %d died on case #%d (%s): %s\n", wi, last, why, trunc(string(raw), 300))
 					v := Violation{Signature: why, What: fmt.Sprintf("worker process died while running case #%d: %s", last, why), Case: raw}
 					st.mu.Lock()
